@@ -2,9 +2,13 @@
 //! or `vw <PROPERTY> --one <sub> <idx> --seed S --tier T` to replay a single case.
 use vcore::runner::{install_panic_hook, Ctx};
 
+#[global_allocator]
+static GLOBAL: vcore::alloc::Counting = vcore::alloc::Counting;
+
 fn dispatch(ctx: &Ctx) {
     match ctx.prop.as_str() {
         "C01" => vcore::c01::run(ctx),
+        "C02" => vcore::c02::run(ctx),
         "C04" => vcore::c04::run(ctx),
         "C05" => vcore::c05::run(ctx),
         "C09" => vcore::c09::run(ctx),
